@@ -127,8 +127,19 @@ Definition field_site_ok (f : field_entry) (s : site) : bool :=
 Definition var_ok (v : var_entry) : bool := forallb (var_site_ok v) (v_sites v).
 Definition field_ok (f : field_entry) : bool := forallb (field_site_ok f) (f_sites f).
 
-Definition audit (vars : list var_entry) (fields : list field_entry) (calls : list call_edge) : bool :=
-  forallb var_ok vars && forallb field_ok fields && forallb (callers_bounded calls) allow_list.
+(* handle types: a value of these types IS a runtime (the exported Otto handle with its Interrupt
+   channel and runtime pointer; the runtime with its scope chain, global table and lock).  A stored
+   shallow copy of one would make two "runtimes" that share those references - e.g. a Copy() built
+   from `out := *o` hands the template's Interrupt channel to every copy - so none is accepted. *)
+Definition handle_types : list string := ["otto.Otto"; "otto.runtime"].
+
+Definition copy_ok (c : copy_site) : bool :=
+  negb (str_in (k_type c) handle_types) || allowed (k_type c) (k_func c).
+
+Definition audit (vars : list var_entry) (fields : list field_entry) (calls : list call_edge)
+           (copies : list copy_site) : bool :=
+  forallb var_ok vars && forallb field_ok fields && forallb (callers_bounded calls) allow_list &&
+  forallb copy_ok copies.
 
 (* ---- the translator must have seen what is known to be there (non-vacuity of the table) ---- *)
 
@@ -142,8 +153,11 @@ Definition field_has_site (fields : list field_entry) (t n : string) (k : site_k
   existsb (fun f => seqb (f_type f) t && seqb (f_name f) n &&
              existsb (fun s => kind_eqb (s_kind s) k && seqb (s_file s) file) (f_sites f)) fields.
 
-Definition table_sane (vars : list var_entry) (fields : list field_entry) (calls : list call_edge) (type_errors : Z) : bool :=
+Definition table_sane (vars : list var_entry) (fields : list field_entry) (calls : list call_edge)
+           (copies : list copy_site) (type_errors : Z) : bool :=
   (type_errors =? 0)%Z &&
+  (* copy detection works: objectClone's `*out = *in` is reported *)
+  existsb (fun c => seqb (k_type c) "otto.object" && seqb (k_func c) "otto.objectClone") copies &&
   forallb (has_var vars)
     ["otto.classObject"; "otto.trueLiteral"; "otto.emptyStatement"; "otto.nilGetSetObject"; "otto.lessThanTable";
      "otto.prototypeValueDate"; "parser.matchIdentifier"; "token.keywordTable"; "token.token2string"; "registry.registry"] &&
@@ -175,7 +189,10 @@ Definition kind_name (k : site_kind) : string :=
 Definition site_line (subject : string) (s : site) : string :=
   s_file s ++ ":" ++ zstr (s_line s) ++ " " ++ subject ++ " (" ++ kind_name (s_kind s) ++ " in " ++ s_func s ++ ")".
 
-Definition failing_report (vars : list var_entry) (fields : list field_entry) (calls : list call_edge) : list string :=
+Definition failing_report (vars : list var_entry) (fields : list field_entry) (calls : list call_edge)
+           (copies : list copy_site) : list string :=
+  map (fun c => k_file c ++ ":" ++ zstr (k_line c) ++ " " ++ k_type c ++ " (shallow copy of a runtime handle, " ++ k_detail c ++ ", in " ++ k_func c ++ ")")
+      (filter (fun c => negb (copy_ok c)) copies) ++
   flat_map (fun v => map (site_line (v_name v)) (filter (fun s => negb (var_site_ok v s)) (v_sites v))) vars ++
   flat_map (fun f => map (site_line (f_type f ++ "." ++ f_name f)) (filter (fun s => negb (field_site_ok f s)) (f_sites f))) fields ++
   flat_map (fun a => map (fun c => c_file c ++ ":" ++ zstr (c_line c) ++ " " ++ a_subject a ++
